@@ -8,6 +8,7 @@ import (
 	"os"
 	"sort"
 	"strconv"
+	"strings"
 	"syscall"
 	"time"
 )
@@ -64,13 +65,13 @@ type Network struct {
 	// SendFails, when set, lets the environment make a send fail locally (ENETUNREACH, ENOBUFS ...):
 	// nothing leaves the host.
 	SendFails func(p Packet) error
-	e       *Exec
-	socks   []*sockState
-	Packets []Packet // everything the library put on the wire
-	Env     Environment
-	nextEph int
-	ReadOps int      // read operations performed on any socket
-	ReadLog [][]byte // every datagram a UDP read returned, in order
+	e         *Exec
+	socks     []*sockState
+	Packets   []Packet // everything the library put on the wire
+	Env       Environment
+	nextEph   int
+	ReadOps   int      // read operations performed on any socket
+	ReadLog   [][]byte // every datagram a UDP read returned, in order
 	// HostIPs are the addresses of the simulated host (a bind to another address fails).
 	Errors []string
 }
@@ -506,6 +507,19 @@ func (d *Dialer) Dial(network, address string) (Conn, error) {
 		fate := "refuse"
 		if n.Env != nil {
 			fate = n.Env.OnTCPConnect(n, fmt.Sprintf("%s:%d", s.localIP, s.localPort), address)
+		}
+		if strings.HasPrefix(fate, "accept-after:") {
+			// the connection is established late (lost SYN retransmitted, full accept queue, slow link)
+			d, _ := time.ParseDuration(strings.TrimPrefix(fate, "accept-after:"))
+			at := e.clock + int64(d)
+			if dl >= 0 && dl < at {
+				s.closed = true
+				e.point("connect(slow)", func() bool { return false }, dl)
+				e.note(e.cur, "dial-timeout")
+				return nil, &net.OpError{Op: "dial", Net: network, Err: &timeoutError{}}
+			}
+			e.point("connect(slow)", func() bool { return false }, at)
+			fate = "accept"
 		}
 		switch fate {
 		case "accept":
